@@ -318,10 +318,13 @@ def r035(an, rep):
         units = []
         for i in (reversed(range(n)) if ok_order else range(n)):
             b = feval(byte_e, {av: v, iv: i})
-            try:
-                o = feval(op_e, {iv: i, "dis.opmap": {"X": "OP"}, "instruction": {"name": "X"}, "dis.EXTENDED_ARG": "EXT", "dis": {"opmap": {"X": "OP"}, "EXTENDED_ARG": "EXT"}})
-            except FevalError:
-                o = "?"
+            o = "?"
+            if isinstance(op_e, ast.IfExp):
+                try:
+                    branch = op_e.body if feval(op_e.test, {iv: i}) else op_e.orelse
+                    o = "EXT" if (isinstance(branch, ast.Attribute) and branch.attr == "EXTENDED_ARG") or (isinstance(branch, ast.Name) and branch.id == "EXTENDED_ARG") else "OP"
+                except FevalError:
+                    o = "?"
             units.append((o, b))
         for k, (o, b) in enumerate(units):
             acc |= b
@@ -389,7 +392,8 @@ def r036(an, rep):
                     st = pm[id(st)]
                 guarded = any(isinstance(t, ast.Compare) and isinstance(t.left, ast.Name) and t.left.id == c.args[1].id and isinstance(t.comparators[0], ast.Constant) and t.comparators[0].value is None
                               for t, _ in guards_of(g.module, g, st) for t in ast.walk(t))
-                rep.add("R03.6", f"{g.qual}::{norm_src(st)}", guarded, loc(g.module, c),
+                usage = "used directly in arithmetic" if isinstance(par, (ast.BinOp, ast.AugAssign, ast.UnaryOp)) else "stored for later arithmetic"
+                rep.add("R03.6", f"{g.qual}::cast of the Optional line {usage}", guarded, loc(g.module, c),
                         f"cast of the Optional line `{c.args[1].id}` is under an `is None` test" if guarded else
                         f"`{norm_src(c)}` claims the line is an int, but `{c.args[1].id}` comes from LineMapping.{sorted(opt_fields)[0]} (Optional[int]) and is used in arithmetic with no "
                         f"None test: an Instruction built with the default line_number=None makes to_code() raise TypeError on the {fmt} path (3.7-3.9)", config=fmt)
